@@ -62,7 +62,7 @@ TStep ==
      /\ (l = 0) => \A o \in 1..Len(heap) : heap[o].m.isioapi =>
           ChkT(tr, 0, "C01 constructor: IOAPI time-step dimension of object " \o ToString(o) \o " is not unlimited", TstepUnlimited(heap[o].f))
      /\ (EnfISO => \A o \in 1..Len(heap) :
-            (o # (IF e.act = "delvar" THEN e.src ELSE 0)) =>
+            (o # (IF e.act \in {"delvar", "addvar"} THEN e.src ELSE 0)) =>
                ChkS(tr, l + 1, "C05 " \o e.act \o ": IOAPI object " \o ToString(o) \o " was modified by the call",
                     IF post[o] = heap[o] THEN ""
                     ELSE IF post[o].m # heap[o].m THEN "metadata block (NVARS / VAR-LIST / start / grid attributes / TFLAG)"
@@ -75,14 +75,14 @@ TStep ==
           \* a zipped (several index lists) selection replaces standard dimensions
           \* by a point dimension and is outside the IOAPI conventions
           /\ (EnfC10 /\ g.m.isioapi /\ C10Demanded(g.f, g.m)
-                /\ Coherent(src.f, src.m)
+                /\ (Coherent(src.f, src.m) \/ (Len(e.others) = 0 /\ CoherentLag(src.f, src.m)))
                 /\ (\A k \in 1..Len(e.others) : Coherent(heap[e.others[k]].f, heap[e.others[k]].m))
                 /\ ~(e.act = "slice" /\ MultiList(e.args))) =>
                /\ ChkT(tr, l + 1, "C10 " \o e.act \o ": a metadata attribute is missing or not representable", MetaOK(g.m))
                /\ KnownOr(tr, l + 1, "C10 " \o e.act \o ": metadata incoherent after the operation",
                           CoherentDiag(g.f, g.m), C10Deviation(e, src, g))
           /\ (EnfC11 /\ e.act = "slice" /\ IsWindow(src.f, e.args)
-                /\ (Coherent(src.f, src.m) \/ CoherentSansTflag(src.f, src.m))
+                /\ (Coherent(src.f, src.m) \/ CoherentSansTflag(src.f, src.m) \/ CoherentLag(src.f, src.m))
                 /\ MetaOK(src.m) /\ src.m.times_ok /\ src.m.vglvls_exact) =>
                /\ ChkT(tr, l + 1, "C11: metadata of the window missing or not representable", MetaOK(g.m) /\ g.m.times_ok /\ g.m.vglvls_exact)
                /\ ChkS(tr, l + 1, "C11 window does not keep referencing", WindowDiag(src.f, src.m, e.args, g.f, g.m))
